@@ -10,12 +10,12 @@ git -C $W checkout -q -- . ; git -C $W clean -qfd -e _build
 git -C $W apply $S/patch.diff
 cd $W
 cmake -G Ninja -S . -B _build -DBUILD_TESTS=ON -DCMAKE_BUILD_TYPE=RelWithDebInfo -DCMAKE_CXX_FLAGS=-Wno-error >/dev/null
-cmake --build _build -j16 2>&1 | tail -1
-ctest --test-dir _build -j8 2>&1 | grep "tests passed\|tests failed" | tee $S/confirm_tests.txt
-g++ -std=gnu++20 -O1 -I$W/include -I$W/_build/include -isystem /usr/include/eigen3 $S/demo.cpp -o $S/demo_with 2>&1 | tail -3
+cmake --build _build -j6 2>&1 | tail -1
+ctest --test-dir _build -j6 2>&1 | grep "tests passed\|tests failed" | tee $S/confirm_tests.txt
+g++ -std=gnu++20 -O1 -pthread -I$W/include -I$W/_build/include -isystem /usr/include/eigen3 $S/demo.cpp -o $S/demo_with 2>&1 | tail -3
 set +e
 $S/demo_with > $S/demo_with.out 2>&1; RC1=$?
 git -C $W checkout -q -- .
-g++ -std=gnu++20 -O1 -I$W/include -I$W/_build/include -isystem /usr/include/eigen3 $S/demo.cpp -o $S/demo_without 2>&1 | tail -3
+g++ -std=gnu++20 -O1 -pthread -I$W/include -I$W/_build/include -isystem /usr/include/eigen3 $S/demo.cpp -o $S/demo_without 2>&1 | tail -3
 $S/demo_without > $S/demo_without.out 2>&1; RC2=$?
 echo "CONFIRM $ID: demo with change exit=$RC1, without exit=$RC2" | tee $S/confirm_demo.txt
